@@ -234,3 +234,19 @@ Definition r2a_ref_trans_ok (W DW : Z) (t : (Z * Z * Z * Z * Z * Z * Z * Z) * (Z
   let '(snap, inp, exp) := t in let '(_, _, _, _, tv, td, se, ac) := snap in
   let s' := r2a_ref_step DW {| rb_tvalid := zb tv; rb_tdata := td; rb_sent := zb se; rb_active := zb ac |} (mkB inp) in
   eq_list (r2a_ref_obs W s') (skipn 8 exp).
+
+(* the same as tables computed here and compared outside: for every given snapshot and every given input,
+   [state after the edge ++ outputs of the gate-level model ++ outputs of the reference machine] *)
+Definition a2r_table (W : Z) (snaps : list (Z * Z * Z * Z * Z * Z)) (inputs : list (Z * Z * Z * Z * Z)) : list (list (list Z)) :=
+  map (fun sn => map (fun i =>
+         let s' := a2r_step W (a2r_of_snapshot sn) (mkA i) in
+         let '(_, _, _, q, l, a) := sn in
+         a2r_snapshot s' ++ a2r_obs s' ++ a2r_ref_obs (a2r_ref_step W {| ra_q := q; ra_loaded := zb l; ra_active := zb a |} (mkA i)))
+       inputs) snaps.
+Definition r2a_table (W DW KW : Z) (snaps : list (Z * Z * Z * Z * Z * Z * Z * Z)) (inputs : list (Z * Z * Z * Z * Z * Z)) : list (list (list Z)) :=
+  map (fun sn => map (fun i =>
+         let s' := r2a_step DW (r2a_of_snapshot sn) (mkB i) in
+         let '(_, _, _, _, tv, td, se, ac) := sn in
+         r2a_snapshot s' ++ r2a_obs W KW s' ++
+         r2a_ref_obs W (r2a_ref_step DW {| rb_tvalid := zb tv; rb_tdata := td; rb_sent := zb se; rb_active := zb ac |} (mkB i)))
+       inputs) snaps.
